@@ -258,9 +258,18 @@ pub fn eval_node<F: FnMut(&GraphColoredVertices, &str)>(
                     // get a domain set from EvalContext, can use unwrap as it is previously checked
                     let domain_set = eval_context.domain_raw_sets.get(domain.as_str()).unwrap();
 
-                    // check edge case of an empty domain (in that case we cannot restrict the domain,
-                    // there would be an error)
-                    if domain_set.is_empty() {
+                    // the domain as a restriction on the values of the quantified `variable`
+                    let var_domain = compute_valid_domain_for_var(graph, domain_set, &var);
+
+                    // check edge case of a domain that is empty in the current universe (in that case we
+                    // cannot restrict the unit set, there would be an error); note that inside another
+                    // restricted scope this can happen for a non-empty domain set, if the two domains
+                    // are non-empty for different colours only
+                    if graph
+                        .unit_colored_vertices()
+                        .intersect(&var_domain)
+                        .is_empty()
+                    {
                         return match op.clone() {
                             HybridOp::Bind => graph.mk_empty_colored_vertices(),
                             HybridOp::Exists => graph.mk_empty_colored_vertices(),
@@ -270,7 +279,6 @@ pub fn eval_node<F: FnMut(&GraphColoredVertices, &str)>(
                     }
 
                     // restrict the var domain in unit BDD of the graph
-                    let var_domain = compute_valid_domain_for_var(graph, domain_set, &var);
                     let restricted_graph = restrict_stg_unit_bdd(graph, &var_domain);
 
                     let child_eval = eval_node(
